@@ -103,6 +103,10 @@ class EnvVarDict(dict):
         for k, v in dict(*args, **kwargs).items():
             self[k] = v
 
+    def __ior__(self, rhs):
+        self.update(rhs)
+        return self
+
     def getpaths(self, key, default=None, **kwargs):
         return [abspath(i) for i in
                 shell.split_paths(self.get(key, default), **kwargs)]
